@@ -539,12 +539,18 @@ func cacheStepper(c Case) (stepper, error) {
 	}, nil
 }
 
-func runCache(c Case, out *Out, realtime bool) {
+// ready (real-time cases, which run concurrently with the sequential ones) is called once the
+// cache exists: its wheel must have taken a real ticker before any wheel-driven case installs
+// the ticker hook
+func runCache(c Case, out *Out, realtime bool, ready func()) {
 	expire := time.Hour
 	if realtime {
 		expire = time.Duration(c.ExpireMs) * time.Millisecond
 	}
 	cache, err := newCache(c, expire)
+	if ready != nil {
+		ready()
+	}
 	if err != nil {
 		out.Err = err.Error()
 		return
@@ -823,9 +829,7 @@ func runCase(c Case) (out Out) {
 	case "window", "safemap", "queue", "ring", "set":
 		runSeq(c, &out)
 	case "cache":
-		runCache(c, &out, false)
-	case "cache_rt":
-		runCache(c, &out, true)
+		runCache(c, &out, false, nil)
 	case "cachew":
 		runCacheW(c, &out)
 	case "cache_take2":
@@ -846,16 +850,28 @@ func main() {
 	res := make([]Out, len(cases))
 	// real-time cache cases sleep: run them concurrently (each has its own cache);
 	// everything else runs sequentially (the virtual clock is global)
-	var wg sync.WaitGroup
+	var wg, created sync.WaitGroup
 	for i, c := range cases {
 		if c.Kind == "cache_rt" {
 			wg.Add(1)
+			created.Add(1)
 			go func(i int, c Case) {
 				defer wg.Done()
-				res[i] = runCase(c)
+				out := Out{ID: c.ID, Obs: []any{}}
+				var once sync.Once
+				ready := func() { once.Do(created.Done) }
+				defer ready()
+				defer func() {
+					if r := recover(); r != nil {
+						out.Err = fmt.Sprintf("panic: %v", r)
+					}
+					res[i] = out
+				}()
+				runCache(c, &out, true, ready)
 			}(i, c)
 		}
 	}
+	created.Wait()
 	// kinds that poll the goroutine stacks go first: every cache leaves two goroutines behind
 	// (wheel loop, stat loop) and a stack dump is linear in the number of goroutines
 	polls := func(k string) bool { return k == "cachew" || k == "cache_take2" }
